@@ -273,6 +273,17 @@ def doPrec (st : St) (prec : Option Num) (conv : Char) (parent : Nat) : Except P
     else if intCvt.contains conv && n > SSIZE_MAX - 3 then .error .PrecisionRangeError
     else .ok st
 
+/-- the warnings recorded after the width and precision tests, in source order: `if prec is not None: …`,
+    `if length is not None: …`, and `if conv == 'u': parent.warn(ObsoleteConversion, …)` inside `if conv in i.int_cvt` -/
+def lateWarnings (w : Bool) (st : St) (d : Directive) : St :=
+  let st :=
+    if d.prec.isSome then
+      let st := if intCvt.contains d.conv && d.flags.contains '0' then warn w st .RedundantFlag else st
+      if d.conv == 'c' || d.conv == '%' then warn w st .RedundantPrecision else st
+    else st
+  let st := if d.length.isSome then warn w st .RedundantLength else st
+  if d.conv == 'u' && intCvt.contains d.conv then warn w st .ObsoleteConversion else st
+
 /-- `Conversion(parent, s[i:j+1], key=…, flags=…, …)`; returns the state and the conversion's `type` -/
 def conversion (w : Bool) (st : St) (d : Directive) : Except PErr (St × String) :=
   let parent := st.items.length
@@ -285,18 +296,10 @@ def conversion (w : Bool) (st : St) (d : Directive) : Except PErr (St × String)
       match doPrec st d.prec d.conv parent with
       | .error e => .error e
       | .ok st =>
-        -- if prec is not None: …
-        let st :=
-          if d.prec.isSome then
-            let st := if intCvt.contains d.conv && d.flags.contains '0' then warn w st .RedundantFlag else st
-            if d.conv == 'c' || d.conv == '%' then warn w st .RedundantPrecision else st
-          else st
-        -- if length is not None: …
-        let st := if d.length.isSome then warn w st .RedundantLength else st
+        let st := lateWarnings w st d
         match typeTable.lookup d.conv with
         | none => .error (.crash .AssertionError)               -- `assert False  # no coverage`
         | some tp =>
-          let st := if d.conv == 'u' && intCvt.contains d.conv then warn w st .ObsoleteConversion else st
           if tp == "None" then
             if d.key.isSome then .error .ForbiddenArgumentKey else .ok (st, tp)
           else
